@@ -1,5 +1,6 @@
 import Fdo.Cbor.Proofs
 import Fdo.Cbor.Fuel
+import Fdo.Cbor.Footprint
 import Fdo.Gen.Cbor
 /-
 C12 — CBOR decoding of arbitrary bytes is total, bounded and exact.
@@ -62,6 +63,81 @@ theorem over_limit_rejected (f d : Nat) (b : Bytes) (mt ai arg : Nat) (r : Bytes
 /-- the instance that was accepted before the repair: a map head declaring 2⁶³ pairs -/
 example : decode1 [0xbb, 0x80, 0, 0, 0, 0, 0, 0, 0] = none :=
   over_limit_rejected _ _ _ 5 27 (2 ^ 63) [] (by decide) (by decide) (by decide)
+
+/-! ### memory: what is built is paid for by bytes actually read -/
+
+/-- **The decoded value is bounded by the input consumed, not by what the input claims**: its
+footprint (one unit per item, one per string byte) plus the unread rest never exceeds the input
+length. A decoder that allocates as data arrives (the repaired policy: `decodeByteSlice`, `Grow` per
+element) therefore needs memory linear in the bytes read; the constant per unit is the Go runtime's
+(measured by the allocation counters of the correspondence run, not proved). -/
+theorem decoded_value_paid_for_by_input (f d : Nat) (b : Bytes) (v : Item) (r : Bytes)
+    (h : decode f d b = some (v, r)) : v.footprint + r.length ≤ b.length :=
+  decode_footprint f d b v r h
+
+/-- An array of `n` items / a map of `n` pairs that decodes was followed by at least `n` / `2n`
+bytes. -/
+theorem container_count_backed_by_bytes (f d : Nat) (b : Bytes) (r : Bytes) :
+    (∀ xs, decode f d b = some (.arr xs, r) → xs.length + r.length < b.length) ∧
+    (∀ ps, decode f d b = some (.map ps, r) → 2 * ps.length + r.length < b.length) := by
+  constructor
+  · intro xs h
+    have := decode_footprint f d b _ r h
+    have := Items.length_le_footprint xs
+    simp [Item.footprint] at *; omega
+  · intro ps h
+    have := decode_footprint f d b _ r h
+    have := Pairs.length_le_footprint ps
+    simp [Item.footprint] at *; omega
+
+/-- **A length that the remaining input cannot back is rejected**, below the limit too: a string head
+announcing more bytes, an array head announcing more items, or a map head announcing more than half
+as many pairs as there are bytes left never decodes — whatever those bytes are. -/
+theorem unbacked_claim_rejected (f d : Nat) (b : Bytes) (mt ai arg : Nat) (r0 : Bytes)
+    (hh : decHead b = some (mt, ai, arg, r0))
+    (hc : (mt = 2 ∨ mt = 3 ∨ mt = 4) ∧ r0.length < arg ∨ mt = 5 ∧ r0.length < 2 * arg) :
+    decode f d b = none := by
+  cases hdec : decode f d b with
+  | none => rfl
+  | some q =>
+    exfalso
+    obtain ⟨v, r⟩ := q
+    match f with
+    | 0 => simp [decode] at hdec
+    | f+1 =>
+      unfold decode at hdec
+      simp only [hh] at hdec
+      rcases hc with ⟨h | h | h, hl⟩ | ⟨h, hl⟩ <;> subst h
+      · simp at hdec; omega
+      · simp at hdec; omega
+      · simp only [show ((4:Nat) = 0) = False from by simp, show ((4:Nat) = 1) = False from by simp,
+          show ((4:Nat) = 2) = False from by simp, show ((4:Nat) = 3) = False from by simp, if_false, if_true] at hdec
+        split at hdec
+        · simp at hdec
+        · cases hi : decodeItems f (d - 1) arg r0 with
+          | none => simp [hi] at hdec
+          | some q =>
+            obtain ⟨xs, r1⟩ := q
+            have := decodeItems_footprint f (d - 1) arg r0 xs r1 hi
+            have := Items.length_le_footprint xs
+            omega
+      · simp only [show ((5:Nat) = 0) = False from by simp, show ((5:Nat) = 1) = False from by simp,
+          show ((5:Nat) = 2) = False from by simp, show ((5:Nat) = 3) = False from by simp,
+          show ((5:Nat) = 4) = False from by simp, if_false, if_true] at hdec
+        split at hdec
+        · simp at hdec
+        · cases hi : decodePairs f (d - 1) arg r0 with
+          | none => simp [hi] at hdec
+          | some q =>
+            obtain ⟨ps, r1⟩ := q
+            have := decodePairs_footprint f (d - 1) arg r0 ps r1 hi
+            have := Pairs.length_le_footprint ps
+            omega
+
+/-- the shape of the seeded and original allocation defects: ten bytes claiming 99 999 nested arrays
+of 99 999 items are rejected, and nothing of that size is ever built -/
+example : decode1 [0x9a, 0x00, 0x01, 0x86, 0x9f, 0x9a, 0x00, 0x01, 0x86, 0x9f] = none :=
+  unbacked_claim_rejected _ _ _ 4 26 99999 [0x9a, 0x00, 0x01, 0x86, 0x9f] (by decide) (Or.inl ⟨by simp, by decide⟩)
 
 /-- The model's length limit is the constant the code was compiled with (regenerated table). -/
 theorem gen_maxLen_eq : Fdo.Gen.Cbor.maxArrayDecodeLength = maxLen := by decide
